@@ -46,7 +46,7 @@ def patched_sqlite(ctl):
     m.connect = lambda *a, **kw: CountingConn(real_sqlite3.connect(*a, **kw), ctl)
     return m
 
-HOSTS = ["example.com", "a.b", "[::1]", "::1", "host:with:colons", 'q"uote', "üñí.example", "dotted.name.example.org", "key = 'x'", "tab\tname", "a#b", "x]y[z", "multi\nline"]
+HOSTS = ["example.com", "Example.COM", "2001:DB8::1", "2001:db8::1", "a.b", "[::1]", "::1", "host:with:colons", 'q"uote', "üñí.example", "dotted.name.example.org", "key = 'x'", "tab\tname", "a#b", "x]y[z", "multi\nline"]
 
 def read_rows(path, known_first):
     con = real_sqlite3.connect(str(path))
